@@ -70,7 +70,7 @@ KF_C13_1 == /\ "KF-C13-1" \in KnownDeviations
             /\ Consume /\ UseDeviation("KF-C13-1")
 
 TraceInit == /\ exp = [items |-> <<>>, fin |-> "none", hasU |-> FALSE, uin |-> 0, uout |-> 0]
-             /\ strict = FALSE /\ phase = "ended" /\ nextIdx = 0 /\ open = 0 /\ blocks = <<>>
+             /\ strict = FALSE /\ phase = "init" /\ nextIdx = 0 /\ open = 0 /\ blocks = <<>>
              /\ rep = NoRep /\ buf = NoBuf /\ hist = <<>> /\ scn = <<>> /\ l = 1
 TraceNext == \/ TReset \/ TBuffered \/ TMessageStart \/ TBlockStart \/ TDelta \/ TBlockStop
              \/ TMessageDelta \/ TMessageStop \/ TPing \/ TEnd \/ TLax
